@@ -90,7 +90,13 @@ class BuckGophermapHandler(BaseHandler):
                     if entry.gethost() is None and entry.getport() is None:
                         # If we're using links on THIS server, try to fill
                         # it in for gopher+.
-                        if self.vfs.exists(selector):
+                        # ...but only for a selector a client could request
+                        # too: a link that climbs out of the root (".." and
+                        # the like) must not make us look at its target.
+                        target = BaseHandler(
+                            selector, "", self.protocol, self.config, None, self.vfs
+                        )
+                        if target.isrequestsecure() and self.vfs.exists(selector):
                             entry.populatefromvfs(self.vfs, selector)
                     self.entries.append(entry)
                 else:  # Info line
